@@ -380,6 +380,18 @@ func (P) Exec(c *harness.Case) *harness.Outcome {
 			if exact && v[e] != want && !(n == 1 && v[e] >= want && v[e] <= up) {
 				o.Fail("C09.lost-without-overlap", s.Steps, "at quiescence bucket %d event %d holds %d, recorded %d, and no caller overlapped its rollover", bs, e, v[e], want)
 			}
+			if !exact {
+				// Callers overlapped the rollover of this bucket. Exact equality is not claimed (an amount recorded
+				// for an EARLIER cycle of the slot may land in it, see up2), but nothing recorded FOR this cycle may be
+				// missing: nobody can reach the counters of the new cycle before they have been zeroed and the new
+				// start published, and after that they are only added to.
+				up2 := want + recorders(func(r *rec) bool {
+					return r.task >= 0 && bucket(r.t) < bs && (bs-bucket(r.t))%(uint64(n)*L) == 0
+				}, e)
+				if v[e] < want || v[e] > up2 {
+					o.Fail("C09.lost-under-contention", s.Steps, "at quiescence bucket %d event %d holds %d; %d was recorded with timestamps selecting it (at most %d more by concurrent recorders of an earlier cycle of the slot)", bs, e, v[e], want, up2-want)
+				}
+			}
 			if exact {
 				o.Probe("exactness_checked")
 			} else {
